@@ -173,7 +173,17 @@ impl GraphInline {
                 format!("~{}~", inlines_to_markdown(subscript, options))
             }
             GraphInline::SmallCaps(small_caps) => inlines_to_markdown(small_caps, options),
-            GraphInline::Code(_, text) => format!("`{}`", text),
+            GraphInline::Code(_, text) => {
+                // delimiters longer than any run of backticks inside, padded where the code
+                // itself starts or ends with a backtick
+                let delimiter = "`".repeat(longest_backtick_run(text) + 1);
+                let pad = if text.starts_with('`') || text.ends_with('`') {
+                    " "
+                } else {
+                    ""
+                };
+                format!("{}{}{}{}{}", delimiter, pad, text, pad, delimiter)
+            }
             GraphInline::Space => " ".into(),
             GraphInline::SoftBreak => "\n".into(),
             GraphInline::LineBreak => "\n".into(),
